@@ -59,6 +59,18 @@ def t_bund_params_off(key):
     return f
 
 
+def t_switch_off_other_spelling(key, spelling):
+    """The feature switches written as 0 (int) or numpy.False_ instead of False, with non-neutral parameters behind them."""
+    def f(spec):
+        fm = _field(spec, key)
+        if fm.get("bunds") or fm.get("mulches") or fm.get("curve_number_adj") or fm.get("sr_inhb"):
+            return None
+        fm.update({"bunds": spelling, "z_bund": 0.25, "bund_water": 40, "mulches": spelling, "mulch_pct": 70, "f_mulch": 0.8,
+                   "curve_number_adj": spelling, "curve_number_adj_pct": 25, "sr_inhb": spelling})
+        return {**spec, key: fm}
+    return f
+
+
 def t_cn_pct_off(key, pct):
     def f(spec):
         fm = _field(spec, key)
@@ -153,6 +165,9 @@ TRANSFORMS = {
     "mulch_params_without_mulches": t_mulch_params_off("field"),
     "fallow_mulch_params_without_mulches": t_mulch_params_off("fallow"),
     "bund_params_without_bunds": t_bund_params_off("field"),
+    "switches_off_written_as_int0": t_switch_off_other_spelling("field", 0),
+    "switches_off_written_as_numpy_false": t_switch_off_other_spelling("field", "np_false"),
+    "fallow_switches_off_written_as_numpy_false": t_switch_off_other_spelling("fallow", "np_false"),
     "fallow_bund_params_without_bunds": t_bund_params_off("fallow"),
     "cn_pct_plus20_without_flag": t_cn_pct_off("field", 20),
     "cn_pct_minus20_without_flag": t_cn_pct_off("field", -20),
